@@ -214,8 +214,8 @@ def run_sessions(plan, lp, workdir):
     try:
         for si, ses in enumerate(plan["sessions"]):
             clock.days = ses.get("clock_days", 0)
+            gc.collect()   # garbage of earlier runs is finalised (its bodies may journal) before the journal is reset
             rt.reset()
-            gc.collect()
             D.get_driver()
             mat = D.Mat(lp)
             top = mat.script(ses["script"])
